@@ -723,6 +723,155 @@ def run_c11(tier):
     return finish("C11", tier, t0, spec, totals, [], problems, bugrep[:3] or [{"note": "no bug runs"}], known, extra_cov=extra)
 
 
+def c12_programs():
+    from gen import op, prog
+    P = {}
+    P["pass"] = prog(1, "fail", [[op("spawn", v=1), op("load", o=0), op("join", v=1)], [op("store", o=0, v=1)]], atomics=[0])
+    P["panic_main"] = prog(2, "fail", [[op("spawn", v=1), op("yield"), op("panic", v=1)], [op("store", o=0, v=1)]], atomics=[0])
+    P["panic_thread"] = prog(3, "fail", [[op("spawn", v=1), op("join", v=1)], [op("load", o=0), op("panic", v=2)]], atomics=[0])
+    P["panic_future"] = prog(4, "fail", [[op("spawn_future", v=1), op("bo_begin"), op("await_join", v=1), op("bo_end")],
+                                         [op("ayield"), op("panic", v=3)]], atomics=[0], kinds=["thread", "future"])
+    P["panic_lock"] = prog(5, "fail", [[op("spawn", v=1), op("lock", o=0, w=0), op("unlock", w=0), op("join", v=1)],
+                                       [op("lock", o=0, w=0), op("panic", v=4)]], nmutex=1)
+    P["deadlock"] = prog(6, "fail", [[op("spawn", v=1), op("recv", o=0), op("join", v=1)], [op("yield")]], chans=[-1])
+    P["maxsteps"] = prog(7, "fail", [[op("yield"), op("yield"), op("yield"), op("yield"), op("yield"), op("yield")]], maxsteps=4)
+    return P
+
+
+C12_MSG = {"panic_main": "boom-1", "panic_thread": "boom-2", "panic_future": "boom-3", "panic_lock": "boom-4",
+           "deadlock": "deadlock! blocked tasks", "maxsteps": "exceeded max_steps bound"}
+
+
+def run_c12(tier):
+    """Failure persistence over histories of configured runs in one process (child processes)."""
+    import re
+    import shutil
+    import subprocess
+    from concurrent.futures import ThreadPoolExecutor
+    t0 = time.time()
+    vlib.build_harness()
+    known = vlib.load_known()
+    wd = vlib.fresh_dir(os.path.join(vlib.WORK, f"run-c12-{tier}"))
+    cfg = "Failure.cfg" if tier == "quick" else "Failure3.cfg"
+    res = vlib.run_tlc("Failure", cfg, {}, wd, workers=8, timeout=1200)
+    hists = [json.loads(json.loads(p)) for p in vlib.tlc_lines(res["out"], "HIST")]
+    if tier == "thorough":
+        import random as _r
+        rr = _r.Random(vlib.seed())
+        three = [h for h in hists if len(h["runs"]) == 3]
+        hists = [h for h in hists if len(h["runs"]) < 3] + rr.sample(three, min(len(three), 6000))
+    progs = c12_programs()
+    problems = []
+    RE_PRINT = re.compile(r'failing schedule:\n"\n([0-9a-f\n]+)\n"')
+    RE_FILE = re.compile(r"failing schedule persisted to file: (\S+)")
+
+    def run_hist(i_h):
+        i, h = i_h
+        d = os.path.join(wd, f"h{i}")
+        os.makedirs(d)
+        runs = []
+        for k, r in enumerate(h["runs"]):
+            rd = os.path.join(d, f"dir{k}")
+            os.makedirs(rd)
+            open(os.path.join(rd, "schedule000.txt"), "w").write("old")
+            runs.append({"prog": progs[r["kind"]], "persist": r["mode"], "dir": rd, "seed": 12345, "iters": 20,
+                         "newthread": r["thread"] == "new"})
+        sp = os.path.join(d, "spec.json")
+        json.dump({"runs": runs}, open(sp, "w"))
+        pr = subprocess.run([vlib.BIN, "failhist", "--spec", sp], cwd=d, stdout=subprocess.PIPE, stderr=subprocess.PIPE, text=True)
+        outs = [json.loads(x) for x in pr.stdout.splitlines() if x.strip().startswith("{")]
+        segs = re.split(r"@@RUN \d+ BEGIN\n", pr.stderr)[1:]
+        rep = []
+        for k, r in enumerate(h["runs"]):
+            seg = segs[k].split(f"@@RUN {k} END")[0] if k < len(segs) else ""
+            printed = RE_PRINT.findall(seg)
+            files = RE_FILE.findall(seg)
+            rd = os.path.join(d, f"dir{k}")
+            newfiles = sorted(f for f in os.listdir(rd) if f != "schedule000.txt")
+            old_ok = open(os.path.join(rd, "schedule000.txt")).read() == "old"
+            o = outs[k] if k < len(outs) else {"result": "missing"}
+            rep.append({"printed": printed, "files": files, "newfiles": newfiles, "old_ok": old_ok, "out": o,
+                        "filedata": [open(os.path.join(rd, f)).read() for f in newfiles]})
+        shutil.rmtree(d, ignore_errors=True)
+        return i, h, rep, pr.returncode
+
+    results = []
+    with ThreadPoolExecutor(max_workers=12) as ex:
+        for r in ex.map(run_hist, list(enumerate(hists))):
+            results.append(r)
+    nruns = 0
+    multi = [0]
+    emitted_scheds = {}
+    sample = None
+    for i, h, rep, rc in results:
+        def bad(kind, k, detail):
+            hs = " ; ".join(f"{r['mode']}/{r['kind']}/{r['thread']}" for r in h["runs"])
+            problems.append({"kind": "failure-persistence", "detail": {"history": hs, "run": k, "what": detail},
+                             "sig": f"failure/{kind}/" + (f"run{k}:{h['runs'][k]['mode']}:{h['runs'][k]['kind']}" if k is not None else "process")})
+        if rc != 0:
+            bad("process-died", None, f"exit code {rc}")
+            continue
+        for k, r in enumerate(h["runs"]):
+            nruns += 1
+            x = rep[k]
+            kind, mode = r["kind"], r["mode"]
+            failed = x["out"].get("result") == "failed"
+            if (kind != "pass") != failed:
+                bad("verdict", k, f"kind {kind} but run result {x['out']}")
+                continue
+            if failed and not x["out"].get("msg", "").startswith(C12_MSG[kind]):
+                bad("payload", k, f"expected payload {C12_MSG[kind]!r}, got {x['out'].get('msg')!r}")
+            n_emit = len(x["printed"]) + len(x["newfiles"])
+            want = h["intended"][k]
+            # the property asks for a schedule when persistence is enabled and for nothing when it is disabled; a
+            # failure that unwinds through a scheduling point may emit a second (longer) schedule: counted, and
+            # each emitted schedule has to reproduce the failure
+            if (n_emit == 0) != (want == 0):
+                bad("not-emitted" if n_emit < want else "emitted-although-disabled", k,
+                    f"{n_emit} schedule(s) emitted, expected {want} (printed={len(x['printed'])}, files={x['newfiles']})")
+                continue
+            if n_emit > 1:
+                multi[0] += 1
+            if mode == "file" and want == 1:
+                if len(x["newfiles"]) < 1 or not x["old_ok"] or x["printed"]:
+                    bad("file-mode", k, f"new files {x['newfiles']}, old file intact={x['old_ok']}, printed={len(x['printed'])}")
+            if mode == "print" and want == 1 and x["newfiles"]:
+                bad("print-mode", k, f"files written in print mode: {x['newfiles']}")
+            em = x["printed"] + x["filedata"]
+            for j, sch in enumerate(em):
+                # the schedule emitted last is the one the failure was reported with
+                key = (kind, sch.strip(), j == len(em) - 1)
+                emitted_scheds[key] = emitted_scheds.get(key, 0) + 1
+            if sample is None and want == 1:
+                sample = {"history": h["runs"], "run": k, "emitted": (x["printed"] + x["filedata"])[0][:120]}
+    # every emitted schedule reproduces the failure it was emitted for
+    nrep = 0
+    for (kind, sch, is_last), cnt in emitted_scheds.items():
+        d = vlib.fresh_dir(os.path.join(wd, "replay"))
+        sp = os.path.join(d, "spec.json")
+        json.dump({"runs": [{"prog": progs[kind], "persist": "none", "replay": sch}]}, open(sp, "w"))
+        pr = subprocess.run([vlib.BIN, "failhist", "--spec", sp], cwd=d, stdout=subprocess.PIPE, stderr=subprocess.PIPE, text=True)
+        outs = [json.loads(x) for x in pr.stdout.splitlines() if x.strip().startswith("{")]
+        nrep += 1
+        if not outs or outs[0].get("result") != "failed" or not outs[0].get("msg", "").startswith(C12_MSG[kind]):
+            problems.append({"kind": "failure-persistence",
+                             "detail": {"what": "the emitted schedule does not reproduce the failure" if is_last else
+                                        "an additional, earlier emitted schedule (printed by the panic hook) does not reproduce the failure",
+                                        "kind": kind, "schedule": sch, "replay": outs[:1]},
+                             "sig": f"failure/replay-differs/{kind}" if is_last else f"failure/extra-schedule-not-replayable/{kind}"})
+    # the pinned-tree transcription must be refuted (self-check that the model can tell the difference)
+    r2 = vlib.run_tlc("Failure", "Failure_pinned.cfg", {}, vlib.fresh_dir(os.path.join(wd, "pinned")), workers=4, timeout=600)
+    totals = {"trace_states": res["states"] + r2["states"], "trace_transitions": res["transitions"] + r2["transitions"],
+              "leaves_reached": len(results), "programs": len(progs)}
+    extra = {"histories": len(results), "runs": nruns, "distinct_emitted_schedules_replayed": nrep, "runs_emitting_more_than_one_schedule": multi[0],
+             "pinned_tree_model_refuted": not r2["ok"], "exhaustive": tier == "quick",
+             "checker_cmd": "tlc -config Failure.cfg Failure.tla ; vharness failhist (one child process per history)"}
+    spec = {"assume": ["histories of at most 2 (quick) / 3 (thorough, sampled) runs in one process; modes None/Print/File; "
+                       "kinds: pass, panic in main / thread / future / while holding a lock, deadlock, failing step bound; same or fresh OS thread",
+                       "portfolio runs are not covered yet"]}
+    return finish("C12", tier, t0, spec, totals, [], problems, [sample] if sample else [{"note": "no emission"}], known, extra_cov=extra)
+
+
 def run_lemmas(pid, problems):
     """Model-only checks (binding D) attached to a property; returns (states, transitions, report)."""
     st = tr = 0
@@ -766,6 +915,8 @@ def run_property(pid, tier):
         return run_c10(tier)
     if pid == "C11":
         return run_c11(tier)
+    if pid == "C12":
+        return run_c12(tier)
     if pid not in SHUTTLE_PROPS:
         raise vlib.ToolError(f"no check registered for {pid}")
     t0 = time.time()
